@@ -21,6 +21,7 @@ theorem parseNextLevelExprBody_spec : T src Tr (parseNextLevelExprBody r) (fun e
   unfold parseNextLevelExprBody
   hoare
 
+set_option maxHeartbeats 400000 in
 theorem binaryExpressionBody_go_spec (prec : Nat) : ∀ fuel x, ExprOK x →
     T src Tr (binaryExpressionBody.go r prec fuel x) (fun e _ => ExprOK e) := by
   intro fuel
